@@ -171,6 +171,7 @@ func loadWith(root string, env []string, overlay map[string][]byte) (*Prog, erro
 		}
 	}
 	sort.Slice(p.ModFuncs, func(i, j int) bool { return FuncName(p.ModFuncs[i]) < FuncName(p.ModFuncs[j]) })
+	resolveResultVariables(p.ModFuncs) // returns of functions with deferred calls deliver the values stored (ssa_resultvars.go)
 	return p, nil
 }
 
